@@ -6,7 +6,7 @@ open CuqiVerif CuqiVerif.Proto CuqiVerif.C14
 Line protocol (one program per line):
 
   exp <toy|replay> <x0> <scale|_> <ops> <stream>
-      ops (`;`-separated): s<n> | w<n>@<tune_freq> | save | load | loadsame | badload | reinit | get
+      ops (`;`-separated): s<n> | s<n>b<batch_size> (emits F=<file>|<file>…) | w<n>@<tune_freq> | save | load | loadsame | badload | reinit | get
         `load`     : a *freshly constructed* sampler of the same configuration loads the last
                      checkpoint and replaces the current one (random stream and callback log carried on)
         `loadsame` : the current sampler loads the last checkpoint
@@ -63,6 +63,17 @@ def execOp (sp : Spec Int Int) (cfg : Obj) (s : Sess) (op : String) : Option Ses
     | none => some { s with run := ensureInit sp s.run, out := s.out ++ ["refused"] }  -- `_ensure_initialized()` ran before `set_state` raised
     | some r => some { s with run := r, out := s.out ++ ["accepted"] }
   else if op = "reinit" then some { s with run := reinitialize sp s.run }
+  else if op.startsWith "s" && (op.splitOn "b").length = 2 then
+    match (op.drop 1).toString.splitOn "b" with
+    | [n, b] =>
+      match n.toNat?, b.toNat? with
+      | some n, some b =>
+        if b = 0 then none else
+          let res := sampleBatched sp n b s.run
+          let files := res.2.map (fun f => commaJoin (f.map fmtVal))
+          some { s with run := res.1, out := s.out ++ ["F=" ++ (if files.isEmpty then "_" else "|".intercalate files)] }
+      | _, _ => none
+    | _ => none
   else if op.startsWith "s" then
     match (op.drop 1).toString.toNat? with
     | some n => some { s with run := sample sp n s.run }
@@ -90,6 +101,9 @@ def runExp (sp : Spec Int Int) (cfg : Obj) (ops : List String) (stream : List In
 def validOp (op : String) : Bool :=
   op ∈ ["get", "save", "load", "loadsame", "badload", "reinit"] ||
   (op.startsWith "s" && ((op.drop 1).toString.toNat?).isSome) ||
+  (op.startsWith "s" && (match (op.drop 1).toString.splitOn "b" with
+      | [n, b] => n.toNat?.isSome && (match b.toNat? with | some k => decide (k > 0) | none => false)
+      | _ => false)) ||
   (op.startsWith "w" && (match (op.drop 1).toString.splitOn "@" with
       | [n, tf] => n.toNat?.isSome && (parseRat tf).isSome
       | _ => false))
